@@ -6,7 +6,7 @@ from debian_inspector import copyright as cr
 
 ID = 'C20'
 LEVEL = 'proof'
-THEOREMS = [('DebInspector.Thm.C20', ['Props.C20.safe_enc', 'Props.C20.safe_ft'])]
+THEOREMS = [('DebInspector.Thm.C20', ['Props.C20.safe_enc', 'Props.C20.safe_ft', 'Props.C20.inverse_core', 'Props.C20.inverse_partial'])]
 TRUSTED = [
     'Lean 4.33.0 kernel',
     'reading of the property as Props.C20.holdsOn (safety at every Python line boundary; inverse, fixpoint and first-line clauses with the stated preconditions)',
@@ -18,10 +18,12 @@ ASSUMPTIONS = ['K4: a blank first line does not round-trip (known finding); K5: 
 RULE = ('exhaustive: all texts of <= L lines over 14 line kinds (x, "x  ", empty, "  ", " v", "  v", tab-v, ".", ".x", "a b", " .", "  .", '
         'NBSP-indented, a line containing FF) joined by LF, with and without a final newline; random printable texts with punctuation-only lines. '
         'non-trivial = at least two lines')
-TECHNIQUE = 'Lean 4 theorem for safety over all texts + executable spec (inverse/fixpoint/first-line clauses) evaluated on every observation + exhaustive small-scope correspondence'
+TECHNIQUE = 'Lean 4 theorems for safety and for decode(encode(t)) over all texts + executable spec (fixpoint/first-line clauses) evaluated on every observation + exhaustive small-scope correspondence'
 LEVEL_TEXT = ('Props.C20.safe_enc / safe_ft: for every Unicode text, every line after the first of as_formatted_text(t) (and of '
               'FormattedTextField dumps) - lines taken at every Python line boundary - starts with a space and is not blank, proved in Lean 4 '
-              '(splitlines output is boundary-free; blank pieces become "."). The inverse, fixpoint and first-line clauses are decided by the '
+              '(splitlines output is boundary-free; blank pieces become "."). Props.C20.inverse_core / inverse_partial: for every text whose first line is not blank (K4), with no line '
+              'starting with a full stop and no later line starting with non-U+0020 white space, from_formatted_text(as_formatted_text(t)) = t with the first line trimmed and '
+              'trailing blanks removed from the others, verbatim lines keeping their indentation (any number and length of lines). The fixpoint and first-line clauses are decided by the '
               'executable specification on every implementation observation and by exhaustive correspondence over all texts of <= 4/5 lines '
               'over 14 line kinds; they are not yet theorems.')
 LEVEL_NOTE = ('Trusted: Lean kernel; axioms propext, Classical.choice, Quot.sound only; model tied to the code by exhaustive '
